@@ -27,7 +27,8 @@ func (m PropagateMatchersOptimizer) Optimize(expr parser.Expr) parser.Expr {
 		}
 
 		// TODO(fpetkovski): Investigate support for vector matching on a subset of labels.
-		if binOp.VectorMatching != nil && len(binOp.VectorMatching.MatchingLabels) > 0 {
+		// Matching with on() is matching on a subset (possibly empty) of labels.
+		if binOp.VectorMatching != nil && (binOp.VectorMatching.On || len(binOp.VectorMatching.MatchingLabels) > 0) {
 			return
 		}
 
@@ -56,65 +57,26 @@ func propagateMatchers(binOp *parser.BinaryExpr) {
 		return
 	}
 
-	lhMatchers := toMatcherMap(lhSelector)
-	rhMatchers := toMatcherMap(rhSelector)
-	union, hasDuplicates := makeUnion(lhMatchers, rhMatchers)
-	if hasDuplicates {
-		return
-	}
-
-	finalMatchers := toSlice(union)
-	lhSelector.LabelMatchers = finalMatchers
-	rhSelector.LabelMatchers = finalMatchers
+	// Matched series agree on every label but the metric name, so each side
+	// can be restricted by the other side's matchers on those labels. Every
+	// side keeps its own matchers, in particular the ones on the metric name.
+	lhOwn, rhOwn := lhSelector.LabelMatchers, rhSelector.LabelMatchers
+	lhSelector.LabelMatchers = withPropagatedMatchers(lhOwn, rhOwn)
+	rhSelector.LabelMatchers = withPropagatedMatchers(rhOwn, lhOwn)
 }
 
-func toSlice(union map[string]*labels.Matcher) []*labels.Matcher {
-	finalMatchers := make([]*labels.Matcher, 0, len(union))
-	for _, m := range union {
-		finalMatchers = append(finalMatchers, m)
-	}
-
-	sort.Slice(finalMatchers, func(i, j int) bool { return finalMatchers[i].Name < finalMatchers[j].Name })
-	return finalMatchers
-}
-
-func makeUnion(lhMatchers map[string]*labels.Matcher, rhMatchers map[string]*labels.Matcher) (map[string]*labels.Matcher, bool) {
-	union := make(map[string]*labels.Matcher)
-	for _, m := range lhMatchers {
-		if m.Name == labels.MetricName {
+// withPropagatedMatchers returns own extended by the matchers of other which
+// are not on the metric name and not already in own, sorted by label name.
+func withPropagatedMatchers(own, other []*labels.Matcher) []*labels.Matcher {
+	result := make([]*labels.Matcher, 0, len(own)+len(other))
+	result = append(result, own...)
+	for _, m := range other {
+		if m.Name == labels.MetricName || containsMatcher(result, m) {
 			continue
 		}
-		if duplicateExists(rhMatchers, m) {
-			return nil, true
-		}
-		union[m.Name] = m
+		result = append(result, m)
 	}
 
-	for _, m := range rhMatchers {
-		if m.Name == labels.MetricName {
-			continue
-		}
-		if duplicateExists(lhMatchers, m) {
-			return nil, true
-		}
-		union[m.Name] = m
-	}
-	return union, false
-}
-
-func toMatcherMap(lhSelector *parser.VectorSelector) map[string]*labels.Matcher {
-	lhMatchers := make(map[string]*labels.Matcher)
-	for _, m := range lhSelector.LabelMatchers {
-		lhMatchers[m.Name] = m
-	}
-	return lhMatchers
-}
-
-func duplicateExists(matchers map[string]*labels.Matcher, matcher *labels.Matcher) bool {
-	existing, ok := matchers[matcher.Name]
-	if !ok {
-		return false
-	}
-
-	return existing.String() == matcher.String()
+	sort.SliceStable(result, func(i, j int) bool { return result[i].Name < result[j].Name })
+	return result
 }
